@@ -31,6 +31,10 @@ import (
 //	producer   range over a local channel that a goroutine started by the same function closes
 //	           as a top-level (or deferred) statement: ends when the producer - the application's
 //	           callback - returns
+//	handshake  a bare receive from the channel that the enclosing select case has just sent on
+//	           (same expression): the other party accepted the hand-over in a rendezvous, so it
+//	           exists, and owes the answer (the session's response slot: the requester closes
+//	           the response) - an obligation of the other party, listed as an assumption
 //	blocking   anything else: a bare receive, a bare send on a channel of unknown or zero
 //	           capacity, a select with a single communication and no default, range over a channel
 //
@@ -47,6 +51,7 @@ func (w *waitAn) chanOps(fset *token.FileSet, fnName func(*ast.FuncDecl) string)
 	var out []chanOp
 	seen := map[token.Pos]bool{}
 	inSelect := map[ast.Node]bool{}
+	handshake := map[ast.Node]bool{}
 	add := func(fn string, n ast.Node, op, kind string) {
 		if seen[n.Pos()] {
 			return
@@ -95,6 +100,21 @@ func (w *waitAn) chanOps(fset *token.FileSet, fnName func(*ast.FuncDecl) string)
 					return true
 				})
 				add(fn, cc, op, kind)
+				// receives from the channel this case sent on, inside its body
+				if snd, ok := cc.Comm.(*ast.SendStmt); ok {
+					want := types.ExprString(snd.Chan)
+					for _, st := range cc.Body {
+						ast.Inspect(st, func(m ast.Node) bool {
+							if _, lit := m.(*ast.FuncLit); lit {
+								return false
+							}
+							if u, ok := m.(*ast.UnaryExpr); ok && u.Op == token.ARROW && types.ExprString(u.X) == want {
+								handshake[u] = true
+							}
+							return true
+						})
+					}
+				}
 			}
 		case *ast.SendStmt:
 			if inSelect[n] {
@@ -107,7 +127,11 @@ func (w *waitAn) chanOps(fset *token.FileSet, fnName func(*ast.FuncDecl) string)
 			}
 		case *ast.UnaryExpr:
 			if n.Op == token.ARROW && !inSelect[n] {
-				add(fn, n, "recv", "blocking")
+				if handshake[n] {
+					add(fn, n, "recv", "handshake")
+				} else {
+					add(fn, n, "recv", "blocking")
+				}
 			}
 		case *ast.RangeStmt:
 			if t := w.l.Info.TypeOf(n.X); t != nil {
@@ -424,6 +448,29 @@ func leanChanOps(ops []chanOp, ok bool) string {
 			b.WriteString(",")
 		}
 		fmt.Fprintf(&b, "\n  (%q, %q, %q)", o.Pkg, o.Op, o.Kind)
+	}
+	b.WriteString("]\n/-! where (for the reader; not consumed):\n")
+	for _, o := range ops {
+		fmt.Fprintf(&b, "  %s:%d %s %s %s\n", o.File, o.Line, o.Fn, o.Op, o.Kind)
+	}
+	b.WriteString("-/\n")
+	return b.String()
+}
+
+// leanRootChanOps: the same for the root package, walked from (*Session).Serve.
+func leanRootChanOps(ops []chanOp, ok bool) string {
+	var b strings.Builder
+	b.WriteString("/-- channel operations of the root package that can run on the serve goroutine (walk from\n(*Session).Serve): (operation, how the wait can end) -/\n")
+	if !ok {
+		b.WriteString("def rootServeChanOps : Option (List (String × String)) := none\n")
+		return b.String()
+	}
+	b.WriteString("def rootServeChanOps : Option (List (String × String)) := some [")
+	for i, o := range ops {
+		if i > 0 {
+			b.WriteString(",")
+		}
+		fmt.Fprintf(&b, "\n  (%q, %q)", o.Op, o.Kind)
 	}
 	b.WriteString("]\n/-! where (for the reader; not consumed):\n")
 	for _, o := range ops {
